@@ -92,6 +92,8 @@ fn reload<T: Serialize>(x: &T) -> Result<T, String> {
 
 fn via_file<T: Serialize>(x: &T) -> Result<T, String> {
     let path = scratch();
+    // a longer file is already in the way: serialize_to replaces it
+    let _ = std::fs::write(&path, vec![0xEEu8; x.size_in_bytes() + 4096 + 24]);
     let r = serialize::serialize_to(x, &path).map_err(|e| format!("serialize_to failed: {}", e))
         .and_then(|_| {
             let sz = std::fs::metadata(&path).map(|m| m.len() as usize).unwrap_or(usize::MAX);
